@@ -639,6 +639,12 @@ impl Drv {
 
             // ------------------------------------------------ misc
             "chdir" => std::env::set_current_dir(s(req, "dir")).map(|_| Value::Null).map_err(|e| raw_io(&e)),
+            // XXH3-128 of the given data, computed with the xxhash crate directly (not through
+            // cacache): lets the orchestrator name xxh3 addresses without an own implementation
+            "xxh3" => {
+                let d = get_data(&req["data"]);
+                Ok(json!(hex::encode(xxhash_rust::xxh3::xxh3_128(&d).to_be_bytes())))
+            }
             "ping" => Ok(json!({"flavour": FLAVOUR, "pid": std::process::id()})),
             "live_handles" => Ok(json!(self.handles.len())),
             _ => Err(json!({"variant":"Driver","text":format!("unknown op {op}")})),
